@@ -307,15 +307,14 @@ def run(m: Model, r: Report, tier: str) -> None:
     vpar = rh.params()[1] if len(rh.params()) > 1 else "variant"
     epar = rh.params()[2] if len(rh.params()) > 2 else "exit_code"
     # (a) script selection
-    sel = [n for n in walk_no_nested(rh.node) if isinstance(n, ast.Assign) and isinstance(n.targets[0], ast.Name) and "pre_hook" in ast.unparse(n.value) and "post_hook" in ast.unparse(n.value)]
-    if len(sel) != 1:
+    from sa.util import choice_table
+    selv = sorted({n.targets[0].id for n in walk_no_nested(rh.node) if isinstance(n, ast.Assign) and isinstance(n.targets[0], ast.Name)
+                   and ast.unparse(n.value) in ("self.config.pre_hook", "self.config.post_hook")})
+    if len(selv) != 1:
         raise AnalysisError(f"{rh.qualname}: hook script selection not found")
-    SV_ = sel[0].targets[0].id
-    bad = []
-    for v in ("PRE", "POST"):
-        got = miniterp.eval_expr(sel[0].value, {vpar: v, "HookVariant.PRE": "PRE", "HookVariant.POST": "POST", "self.config.pre_hook": "pre", "self.config.post_hook": "post"})
-        if got != v.lower():
-            bad.append(f"{v} hook runs the {got}_hook script")
+    SV_ = selv[0]
+    tsel = choice_table(rh.node, SV_, {vpar: ["PRE", "POST"], "HookVariant.PRE": ["PRE"], "HookVariant.POST": ["POST"]})
+    bad = [f"{k_[0]} hook runs {v_}" for k_, v_ in tsel.items() if v_ != f"self.config.{k_[0].lower()}_hook"]
     r.check(not bad, "R9", f"{rh.qualname}#script-selection", f"{bad}", loc=rh.loc)
     # (b) nothing to run iff no script
     early = [n for n in rh.node.body if isinstance(n, ast.If) and any(isinstance(x, ast.Return) for x in n.body) and SV_ in ast.unparse(n.test)]
